@@ -127,7 +127,9 @@ def verdictAof (id point : String) (now2 : Int) (inj stuck : Bool) (nrw : Nat) :
     | none => none
     | some none => some []
     | some (some s) => some (dataset s)
-  let m := restore now2 preDs logB
+  -- SPOP is re-executed with a fresh random choice: the model's replay of it is not comparable
+  let hasRandom := (parseLog (logB.length + 1) logB).1.any fun c => toLower (c.headD []) == b "spop"
+  let m := if hasRandom then Restored.unmod "SPOP re-executed with a fresh random choice" else restore now2 preDs logB
   let modelV : String := match m, kind, r with
     | .ok s, "ok", some rs =>
       if canonRestored s == canonRestored rs then "OK" else "DIFF restored-state model=" ++ ((toString (repr (canonRestored s).dbs)).replace "\n" " ") ++ " impl=" ++ ((toString (repr (canonRestored rs).dbs)).replace "\n" " ")
